@@ -50,19 +50,32 @@ type builder struct {
 }
 
 func (b *builder) value(label string) uint64 {
-	if b.cfg.HighIDs && rapid.IntRange(0, 3).Draw(b.t, label+"high") == 0 {
-		switch rapid.IntRange(0, 4).Draw(b.t, label+"class") {
+	small := uint64(rapid.IntRange(1, 60).Draw(b.t, label+"v"))
+	if b.cfg.HighIDs && rapid.IntRange(0, 2).Draw(b.t, label+"high") == 0 {
+		// Values whose differences are exactly 2^62 / 2^63 as well as the
+		// boundaries themselves: references are delta and zigzag coded.
+		switch rapid.IntRange(0, 9).Draw(b.t, label+"class") {
 		case 0:
-			return 1<<63 + uint64(rapid.IntRange(0, 20).Draw(b.t, label+"v"))
+			return 1 << 63
 		case 1:
-			return math.MaxUint64 - uint64(rapid.IntRange(0, 20).Draw(b.t, label+"v"))
+			return 1 << 62
 		case 2:
-			return 1<<uint(rapid.SampledFrom([]int{31, 32, 42, 56, 62}).Draw(b.t, label+"bits")) + uint64(rapid.IntRange(0, 3).Draw(b.t, label+"v"))
+			return small + 1<<62
+		case 3:
+			return small + 1<<63
+		case 4:
+			return small + 1<<63 + 1<<62
+		case 5:
+			return math.MaxUint64 - small + 1
+		case 6:
+			return math.MaxUint64
+		case 7:
+			return 1<<uint(rapid.SampledFrom([]int{31, 32, 42, 56}).Draw(b.t, label+"bits")) + small - 1
 		default:
-			return rapid.Uint64().Draw(b.t, label+"v")
+			return rapid.Uint64().Draw(b.t, label+"any")
 		}
 	}
-	return uint64(rapid.IntRange(1, 60).Draw(b.t, label+"v"))
+	return small
 }
 
 func (b *builder) newID(t int, label string) FID {
